@@ -2,6 +2,8 @@
 
 package sb
 
+import "reflect"
+
 // Hooks for the verification harness in /verif. Compiled only with -tags verif;
 // without the tag this file does not exist for the compiler.
 
@@ -53,4 +55,14 @@ func VerifResetCaches() {
 		fieldIsDeprecatedMap.Delete(k)
 		return true
 	})
+}
+
+// VerifUnregister removes a type from the two registries, so that the harness
+// can replay the registration of one type many times (registration races).
+func VerifUnregister(t reflect.Type) {
+	if name, ok := registeredTypeToName.Load(t); ok {
+		registeredNameToType.Delete(name)
+	}
+	registeredNameToType.Delete(TypeName(t))
+	registeredTypeToName.Delete(t)
 }
